@@ -33,6 +33,12 @@ OBS = ["Z", "Zabs", "X", "Y", "NN", "NNp", "SWAP", "2Z+X", "Z-0.5", "negZ", "use
 def generate(seed, tier):
     r = P.rng_for(seed)
     scfg = P.gen_state_cfg(r, max_nv=4, max_nh=3, max_na=2, scales=(0.1, 1.0, 3.0), custom_p=0.0)
+    if r.random() < 0.03 and scfg["type"] != "density":
+        # occasionally a system of realistic size (nothing in this check needs to enumerate the basis)
+        scfg["nv"] = r.choice([20, 54, 64])
+        scfg["scale"] = 0.1
+        # a partly ordered system: most spins frozen by strong fields, the last few free
+        scfg["frozen_prefix"] = r.random() < 0.7
     nops = r.randint(2, 5)
     ops = []
     for _ in range(nops):
@@ -40,6 +46,10 @@ def generate(seed, tier):
         if m < 0.05 and ops:
             # the model's parameters change between evaluations (training, loading): nothing may be remembered
             ops.append({"op": "reparam", "pseed": P.s64(r), "scale": r.choice([0.1, 1.0, 3.0])})
+            continue
+        if 0.05 <= m < 0.08 and ops:
+            # user code fails in the middle of a joint evaluation; whatever is evaluated afterwards must be unaffected
+            ops.append({"op": "bomb_stats", "at": r.randint(1, 4), "sub": P.s64(r), "num_samples": r.choice([4, 9]), "num_chains": r.choice([0, 2, 3])})
             continue
         if m < 0.25:
             n = r.randint(1, 24)
@@ -199,6 +209,11 @@ def execute(plan):
         rng.stream(plan["sub"])
         state = build_state(scfg)
         nv = state.num_visible
+        if scfg.get("frozen_prefix") and nv > 10:
+            vb = state.rbm_am.visible_bias.data
+            g0 = np.random.Generator(np.random.PCG64(scfg["pseed"]))
+            vb[: nv - 6] = torch.from_numpy(np.where(g0.random(nv - 6) < 0.5, -12.0, 12.0))
+            vb[0] = 12.0
         rng.arm_global(plan["sub"])
         for j, op in enumerate(plan["ops"]):
             run.log.add("op", op["op"], j)
@@ -268,6 +283,34 @@ def execute(plan):
                 trace.append(("merge", len(op["chunks"]), min(op["chunks"]), op["kind"], bool(op.get("tree"))))
                 continue
 
+            if op["op"] == "bomb_stats":
+                from qucumber.observables import ObservableBase, SigmaX, SigmaZ, System
+
+                class Bomb(ObservableBase):
+                    def __init__(self, at):
+                        self.name = "Bomb"
+                        self.symbol = "B"
+                        self.calls = 0
+                        self.at = at
+
+                    def apply(self, nn_state, samples):
+                        self.calls += 1
+                        if self.calls >= self.at:
+                            raise RuntimeError("user observable failed")
+                        return samples[:, 0] * 1.0
+
+                zed = obs_cache.get("Z") or obs_cache.setdefault("Z", make_obs("Z", nv, counter))
+                rng.stream(op["sub"])
+                try:
+                    System(zed, Bomb(op["at"]), SigmaX()).statistics(state, num_samples=op["num_samples"], num_chains=op["num_chains"], burn_in=1, steps=1)
+                    run.probes["bomb_not_reached"] += 1
+                except RuntimeError:
+                    run.fault("user_code_raises", "System.statistics")
+                except Exception as exc:  # noqa: BLE001
+                    run.lib_exception(exc, "System.statistics with a failing user observable")
+                rng.check_global()
+                trace.append(("bomb", op["at"]))
+                continue
             if op["op"] == "from_samples":
                 g = np.random.Generator(np.random.PCG64(op["dseed"]))
                 smp = torch.tensor(g.integers(0, 2, size=(op["n"], nv)).astype(np.float64), dtype=torch.double)
@@ -421,7 +464,7 @@ def shrink(plan):
         q["config"]["state"].pop("na", None)
         out.append(q)
     for j, op in enumerate(plan["ops"]):
-        if op["op"] == "reparam":
+        if op["op"] in ("reparam", "bomb_stats"):
             continue
         if op["op"] == "merge":
             if len(op["chunks"]) > 1:
